@@ -28,18 +28,24 @@ check had to be strengthened):
 
 * `Cxx-revert-<commit>`: the reversal of every `fix:` commit (the defect of the pinned tree comes
   back). Each must be caught by the property's quick check.
-* `Cxx-agent` and `Cxx-agent2`: two changes per property, each written by a fresh sub-agent that was
-  given only the text of the property and a scratch worktree of `/repo` (nothing from `/verif`;
-  the briefs are kept as `seeded/BRIEF_batch*_example_C08.txt`), asked for a plausible refactoring
-  that breaks the property, still compiles, passes the 102 existing tests and needs something
-  specific to manifest, with a demonstration test. The second batch was additionally told which
-  change already existed, so as to hit a different function or clause. Each change was confirmed
-  in a scratch worktree before it was kept (`tools/confirm_seed.sh`: the 102 tests pass with the
-  change, the demonstration fails with it and passes without it); the worktrees were removed.
+* `Cxx-agent`, `Cxx-agent2`, `Cxx-agent3`: three changes per property, each written by a fresh
+  sub-agent that was given only the text of the property and a scratch worktree of `/repo`
+  (nothing from `/verif`; the briefs are kept as `seeded/BRIEF_batch*_example_C08.txt`), asked for
+  a plausible refactoring that breaks the property, still compiles, passes the 102 existing tests
+  and needs something specific to manifest, with a demonstration test. The second and third batch
+  were additionally told which changes already existed, so as to hit a different function and
+  clause (third batch: preferably a multi-step sequence, a boundary value, an unusual-but-legal
+  representation or two cooperating sites). Each change was confirmed in a scratch worktree before
+  it was kept (`tools/confirm_seed.sh`: the 102 tests pass with the change, the demonstration
+  fails with it and passes without it); the worktrees were removed. One candidate was **rejected**
+  (`seeded/rejected/C13-agent3`): it only manifests for a Quadratic message with a duplicated
+  (row, column) position, which `quadratic.proto` forbids, so it does not break the property (the
+  C13 check, correctly, did not flag it); a replacement was requested and is kept as `C13-agent3`.
 
 `python3 tools/seeded.py seeded/<name>` applies the patch to `/repo`, runs the property's quick
 check, restores `/repo` and records the outcome. First-run outcomes: all 17 reversals DETECTED;
-36 of the 40 agent changes DETECTED. The four misses and what was done (each is DETECTED now):
+51 of the 60 agent changes DETECTED (batch 1: 19/20, batch 2: 17/20, batch 3: 15/20). The nine
+misses and what was done (each is DETECTED now):
 
 * `C02-agent` (Quadratic+Quadratic keyed by the unordered pair): the quick tier ran only two
   Quadratic+Quadratic pairs and no operand listed both (i,j) and (j,i) -> stream `asym`.
@@ -49,13 +55,25 @@ check, restores `/repo` and records the outcome. First-run outcomes: all 17 reve
   integer width of exactly 2^k-2 and outward slack > 1 -> stream `width-frac`.
 * `C20-agent2` (listing accessors return the first layer with the same digest): the harness never
   called `get_instances` / `get_solutions` -> they are observed and judged now (`judge_listing`).
+* `C05-agent3` (quadratic term skipped when the row value is 0): no state lacked a variable that
+  occurs only as a column factor next to a zero-valued row partner -> deterministic cases.
+* `C08-agent3` (explicit `[0,0]` bound read as absent): that bound had probability < 1% ->
+  `rand_bound` produces it at 6% and C08 adds two deterministic `zero-bound` cases per instance.
+* `C11-agent3` (deferred removal of cancelled PUBO keys): no three monomials collapsing onto one
+  key with an exactly cancelling proper prefix -> stream `prefix-cancel`.
+* `C13-agent3` (Linear+Linear keeps the last duplicate of the left operand): only merged
+  functions were generated -> the exact streams also spell coefficients as repeated entries.
+* `C14-agent3` (evaluate_samples short-circuits removed constraints for all samples): histories
+  were observed through `evaluate` only -> `evaluate_samples` on several states is observed after
+  every step and judged per sample against the model (`judge_sample_flags`).
 
 Two streams were added *before* the first run of the corresponding seed, after reading its
 description, because the generator could not have produced the needed input: two- and three-step
 `Instance::partial_evaluate` (`C03-agent`) and binary variables without explicit bound at
-out-of-range values (`C05-agent`). Every miss was a gap of a *generator or observation*, none of
-a theorem or of the model. The table is regenerated from the result files by
-`tools/build_design.py`.
+out-of-range values (`C05-agent`). Every miss was a gap of a *generator or an observation*, none
+of a theorem or of the model; a hanging SDK (`C04-agent3`) showed that the watchdog made a check
+take tens of minutes, so a shard now stops after four hangs and hang cases are not shrunk.
+The table is regenerated from the result files by `tools/build_design.py`.
 
 """
 
